@@ -75,5 +75,45 @@ theorem probe_spec (slots : Array (Option Entry)) (i h : Nat) (k : Nat) :
           (by simpa [walk] using hs) (fun j hj => by have := hall (j + 1) (by omega); simpa [walk] using this)
         rw [this]; simp [walk]; omega
 
-#print axioms probe_spec
+
+/-- minimal stopping step below a bound, if any -/
+def firstStop (slots : Array (Option Entry)) (i h pos : Nat) : Nat → Nat → Option Nat
+  | 0, _ => none
+  | fuel + 1, k => if stopAt eqv slots i h (walk slots.size k pos) then some k else firstStop slots i h pos fuel (k + 1)
+
+theorem firstStop_spec (slots : Array (Option Entry)) (i h pos : Nat) :
+    ∀ fuel k0 k, k0 ≤ k → k < k0 + fuel → stopAt eqv slots i h (walk slots.size k pos) = true →
+    (∀ j, j < k0 → True) →
+    ∃ m, firstStop eqv slots i h pos fuel k0 = some m ∧ k0 ≤ m ∧ m ≤ k ∧
+      stopAt eqv slots i h (walk slots.size m pos) = true ∧
+      ∀ j, k0 ≤ j → j < m → stopAt eqv slots i h (walk slots.size j pos) = false := by
+  intro fuel
+  induction fuel with
+  | zero => intro k0 k h1 h2; omega
+  | succ f ih =>
+    intro k0 k h1 h2 hs _
+    unfold firstStop
+    by_cases hc : stopAt eqv slots i h (walk slots.size k0 pos) = true
+    · simp only [hc, ↓reduceIte]
+      exact ⟨k0, rfl, Nat.le_refl _, h1, hc, fun j a b => by omega⟩
+    · simp only [hc, Bool.false_eq_true, ↓reduceIte]
+      have hne : k0 ≠ k := by intro e; subst e; exact hc hs
+      obtain ⟨m, hm, a, b, c, d⟩ := ih (k0 + 1) k (by omega) (by omega) hs (fun _ _ => trivial)
+      refine ⟨m, hm, by omega, b, c, fun j hj1 hj2 => ?_⟩
+      by_cases e : j = k0
+      · subst e; simpa using hc
+      · exact d j (by omega) hj2
+
+/-- the probe always succeeds when some slot on the path within `size` steps stops it -/
+theorem probe_finds (slots : Array (Option Entry)) (i h pos k : Nat) (hp : pos < slots.size)
+    (hk : k < slots.size) (hs : stopAt eqv slots i h (walk slots.size k pos) = true) :
+    ∃ m, m ≤ k ∧ probe eqv slots i h (slots.size + 1) pos 0 = some (walk slots.size m pos, m) ∧
+      stopAt eqv slots i h (walk slots.size m pos) = true ∧
+      ∀ j, j < m → stopAt eqv slots i h (walk slots.size j pos) = false := by
+  obtain ⟨m, _, _, b, c, d⟩ := firstStop_spec eqv slots i h pos (k + 1) 0 k (Nat.zero_le _) (by omega) hs (fun _ _ => trivial)
+  refine ⟨m, b, ?_, c, fun j hj => d j (Nat.zero_le _) hj⟩
+  have := probe_spec eqv slots i h m (slots.size + 1) pos 0 hp (by omega) c (fun j hj => d j (Nat.zero_le _) hj)
+  simpa using this
+
+#print axioms probe_finds
 end G
